@@ -53,11 +53,45 @@ def gen_tspec(r, collide=True):
     return tspec
 
 
+def build(cassis, sc):
+    """scen.build_cas plus the sofa knobs of this module: views may carry "uri" and "array" (label of a ByteArray object)."""
+    ts = scen.build_ts(cassis, sc["ts"])
+    cas, views, objs = scen.build_cas(cassis, ts, sc["cas"])
+    for i, v in enumerate(sc["cas"]["views"]):
+        if v.get("uri") is not None:
+            views[i].sofa_uri = v["uri"]
+        if v.get("array") is not None:
+            views[i].sofa_array = objs[v["array"]]
+    return ts, cas, views, objs
+
+
 def gen_scenario(r, cassis, tier="quick"):
     tspec = gen_tspec(r)
     big = tier != "quick" and r.random() < 0.1
     cspec = scen.gen_cspec(r, cassis, tspec, n_objs=(1, 40 if big else 10), all_ids=True, max_views=3)
     objs = cspec["objs"]
+    # sofa knobs: a URI, and / or a byte array holding the sofa data (an object of its own, sometimes also referenced
+    # through a TOP-ranged feature or indexed, sometimes shared by two sofas)
+    used = {o["id"] for o in objs} | set(range(1, len(cspec["views"]) + 1))
+    last_arr = None
+    for v in cspec["views"]:
+        if r.random() < 0.2:
+            v["uri"] = r.choice(["file:/tmp/a b.txt", "http://x/y?z=1&w=<2>", ""])
+        if r.random() < 0.25:
+            if last_arr is not None and r.random() < 0.3:
+                v["array"] = last_arr
+                continue
+            lab = max(o["o"] for o in objs) + 1
+            i = next(k for k in range(1, 10 ** 6) if k not in used)
+            used.add(i)
+            objs.append({"o": lab, "type": T + "ByteArray", "id": i,
+                         "slots": {"elements": {"list": [{"i": r.choice([0, 1, 15, 16, 127, 128, 255])}
+                                                         for _ in range(r.choice([0, 1, 4]))]}}})
+            v["array"] = last_arr = lab
+            if r.random() < 0.3:
+                v["text"] = None
+            if r.random() < 0.2:
+                cspec["members"].append([r.randrange(len(cspec["views"])), lab])
     # bias: few roots, so that most structures are reachable only through references / collections
     if r.random() < 0.5 and len(cspec["members"]) > 1:
         keep = r.sample(cspec["members"], r.randint(1, max(1, len(cspec["members"]) // 3)))
@@ -141,9 +175,9 @@ def g_cas(cspec, ids, sofas):
     views = []
     for i, v in enumerate(cspec["views"]):
         sid, num = sofas[i]
-        views.append("mkView (mkSofa %s %s %s %s %s None None) %s" % (
+        views.append("mkView (mkSofa %s %s %s %s %s %s %s) %s" % (
             gz(sid), gz(num), gstr(v["name"]), scen.g_text(v.get("text")), gopt(v.get("mime"), gstr),
-            glist([gn(l) for l in members.get(i, [])])))
+            gopt(v.get("uri"), gstr), gopt(v.get("array"), gn), glist([gn(l) for l in members.get(i, [])])))
     sp = copy.deepcopy(cspec)
     mx = max([s[0] for s in sofas] + [0])
     for o in sp["objs"]:
@@ -322,9 +356,12 @@ def check_faithful(doc, cc, schema):
     for s in cc["sofas"]:
         a = dict(sofas[s["id"]]["attrs"])
         text = None if s["text"] is None else "".join(chr(c) for c in s["text"])
-        got = (a.get("sofaNum"), a.get("sofaID"), a.get("mimeType"), a.get("sofaString"))
-        if got != (str(s["num"]), s["name"], s["mime"], text):
-            return f"sofa {s['id']}: written {got!r}, in memory {(s['num'], s['name'], s['mime'], text)!r}"
+        got = (a.get("sofaNum"), a.get("sofaID"), a.get("mimeType"), a.get("sofaString"), a.get("sofaURI"), a.get("sofaArray"))
+        want = (str(s["num"]), s["name"], s["mime"], text, s["uri"], None if s["arr"] is None else str(s["arr"]))
+        if got != want:
+            return f"sofa {s['id']}: written {got!r}, in memory {want!r}"
+        if s["arr"] is not None and s["arr"] not in elems:
+            return f"sofa {s['id']}: sofaArray {s['arr']} is not an element of the document"
         mem = [int(m) for m in (xmlabs.attr(views[s["id"]], "members") or "").split()] if s["id"] in views else []
         if sorted(mem) != s["members"]:
             return f"view of sofa {s['id']}: members {mem} but indexed {s['members']}"
